@@ -140,7 +140,7 @@ def case(rng):
     h2 = history(rng, rng.below(12))
     obs = observe(rng)
     fa, fb = rng.choice([(0, 0xAA), (0xFF, 0), (0x55, 0xAA), (1, 0x80)])
-    mem = rng.choice(["own", "own", "user"])
+    mem = rng.choice(["own", "own", "user", "capi"])
     if kind == "fill":
         return (["bus fill %x" % fa, "bus newraw " + mem] + h2 + obs +
                 ["bus fill %x" % fb, "bus newraw " + mem] + h2 + obs + ["bus fill 0"])
